@@ -12,6 +12,9 @@ package antispam
 // is set, and a matching exception never drops; the counter of a source is
 // incremented at most once per call.
 
+// With rules, the first matching rule decides: no rule is evaluated after one has
+// matched (a later, stricter rule must not override it).
+
 //@ func (*Antispammer).IsSpam
 //@   ghost g_exc bool = false
 //@   ghost g_incs int = 0
@@ -19,7 +22,12 @@ package antispam
 //@   ensures g_exc ==> !result
 //@   ensures g_incs <= 1
 //@   loop 1 invariant 0 <= i && !g_exc && g_incs == 0
-//@   loop 2 invariant !g_exc && g_incs == 0
+//@   loop 2 invariant !g_exc && g_incs == 0 && nmatch == 0
+//@   ghost nmatch int = 0
+//@   callee Check(d) (r)
+//@     requires nmatch == 0
+//@     pure
+//@     set nmatch := nmatch + ite(r, 1, 0)
 //@   callee Match(data) (r)
 //@     requires !e.CheckSourceName ==> data == event
 //@     requires e.CheckSourceName ==> len(data) == len(name) && seqeq(data, name, 0)
